@@ -522,7 +522,14 @@ fn run_rustfmt(
 
     Ok(status
         .iter()
-        .filter_map(|s| if s.success() { None } else { s.code() })
+        .filter_map(|s| {
+            if s.success() {
+                None
+            } else {
+                // No exit code means rustfmt was killed by a signal: still a failure.
+                Some(s.code().unwrap_or(FAILURE))
+            }
+        })
         .next()
         .unwrap_or(SUCCESS))
 }
